@@ -216,6 +216,29 @@ fn cmd_xidtable() -> String {
     out
 }
 
+/// `case <case id> <hex name>`: the `convert_case` crate (external dependency of the derives).
+fn cmd_case(rest: &str) -> String {
+    use convert_case::{Case, Casing as _};
+    let Some((case, name)) = rest.split_once(' ') else {
+        return "bad-op".into();
+    };
+    let Some(name) = hex_decode(name) else {
+        return "bad-op".into();
+    };
+    let case = match case {
+        "lower" => Case::Flat,
+        "upper" => Case::UpperFlat,
+        "pascal" => Case::Pascal,
+        "camel" => Case::Camel,
+        "snake" => Case::Snake,
+        "screamingSnake" => Case::UpperSnake,
+        "kebab" => Case::Kebab,
+        "screamingKebab" => Case::UpperKebab,
+        _ => return "bad-op".into(),
+    };
+    hex_encode(&name.to_case(case))
+}
+
 fn handle(line: &str) -> String {
     let line = line.trim_end_matches(['\n', '\r']);
     let (cmd, rest) = match line.split_once(' ') {
@@ -229,6 +252,7 @@ fn handle(line: &str) -> String {
         "attr" => cmd_attr(rest),
         "derives" => crate::dispatch::DERIVES.join(" "),
         "xid" => cmd_xid(rest.trim()),
+        "case" => cmd_case(rest.trim()),
         "xidtable" => cmd_xidtable(),
         _ => "bad-op".into(),
     }
